@@ -145,11 +145,12 @@ def corr_and_oracle(ck, n_circuits, thorough=False):
         except Exception as ex:
             ok, obs, exp = False, {'raised': f'{type(ex).__name__}: {ex}'[:300]}, None
         nontriv = d['lines'] >= 4
+        hyp_tag = common.allcirc_hyp(ck, c, [False, True], 'C01')      # hypotheses of all_circuits_solution / logic_sim_end_to_end_all_circuits
         ck.case(key=(dump, case['strip'], case['reuse'], case['path'], case['cycles']), nontrivial=nontriv,
                 sample={'net': dump, 'sims': len(case['stim'][0]), 'strip': case['strip'], 'reuse': case['reuse'],
                         'path': case['path'], 'cycles': case['cycles']},
                 tag=[f"path:{case['path']}", f"cycles:{case['cycles']}", f"strip:{case['strip']}", f"reuse:{case['reuse']}",
-                     f"ff:{min(d['ff'], 3)}", f"unconn:{min(d['unconnected_pins'], 3)}", f"sims:{len(case['stim'][0])}"])
+                     f"ff:{min(d['ff'], 3)}", f"unconn:{min(d['unconnected_pins'], 3)}", f"sims:{len(case['stim'][0])}", hyp_tag])
         if not ok:
             cls = 'inject-cb' if (case['path'] == 'cb' and obs and 'raised' in obs) else 'logic2'
             ck.violation(cls, 'LogicSim(m=2) result differs from gate-by-gate evaluation of the netlist', case, obs, exp)
@@ -268,9 +269,23 @@ def cycle_tie(ck, n_circuits, thorough=False):
                 ok, obs, exp = _retry_if_driver_killed(eval_cycle_case, case)
             except Exception as ex:
                 ok, obs, exp = False, {'raised': f'{type(ex).__name__}: {ex}'[:300]}, None
+            # per-case certification the header claims: Net.wfB / orderOKB (+ forksOKB, readsDrivenB) on the real circuit and order
+            # (driver simopscert) and the map certificate MapIn.check on the REAL tables of this option tuple (driver mapok):
+            # hypotheses of cycle_step / cycle_iter / cycle_on_memory / cycle_end_to_end
+            hyp_tag = common.allcirc_hyp(ck, c, [case['strip']], 'C01 cycle')
+            try:
+                so = simcorr.real_simops(c, case['strip'], case['reuse'])
+                opsS = '/'.join(','.join(str(int(x)) for x in row[:6]) for row in so.ops)
+                rest = '|'.join([opsS, ','.join(str(int(x)) for x in so.level_starts), ','.join(str(int(x)) for x in so.c_locs),
+                                 ','.join(str(int(x)) for x in so.c_caps), str(int(so.c_len))])
+                mc = common.run_driver([f'net {circ.dump_net(c)}', f"mapok {int(case['strip'])} 1 {rest}"])[1]
+            except Exception as ex:
+                mc = f'{type(ex).__name__}: {ex}'[:200]
+            if mc != 'ok':
+                ck.broken_tie('map certificate MapIn.check on the real tables of a cycle case (hypothesis of cycle_on_memory)', mc, inp={'cycle_case': case})
             ck.case(key=('cycle', circ.dump_net(c), case['m'], case['strip'], case['reuse'], case['path'], case['k']),
                     nontrivial=d['ff'] >= 1 and case['k'] >= 1,
-                    tag=['tie:cycle', f"tie-m:{case['m']}", f"tie-k:{min(case['k'], 3)}", f"tie-ff:{min(d['ff'], 3)}",
+                    tag=[hyp_tag, f"cycle-mapcert:{'ok' if mc == 'ok' else 'FAIL'}", 'tie:cycle', f"tie-m:{case['m']}", f"tie-k:{min(case['k'], 3)}", f"tie-ff:{min(d['ff'], 3)}",
                          f"tie-memthm:{case.pop('_mem_thm', '?')}"])
             if not ok:
                 ck.broken_tie('cycle model correspondence (Model/Cycle.lean vs LogicSim.cycle)', f'real {obs} != model {exp}'[:400],
